@@ -2,12 +2,54 @@ package storeconc
 
 import (
 	"context"
+	"fmt"
 	"regexp"
 	"runtime"
+	"strconv"
 	"strings"
 	"sync"
+	"sync/atomic"
 	"time"
+
+	"github.com/atomix/go-sdk/pkg/test"
+	"google.golang.org/grpc"
 )
+
+// atomixClient is the in-memory Atomix test client plus a record of the
+// connections the stores' primitives opened through it: the stores close only
+// part of their primitives (none in the v3 transaction store, not the per-target
+// value maps in the configuration stores), each forgotten connection pins two
+// 1 MiB pipes, and thousands of cases run in one process.
+type atomixClient struct {
+	inner *test.Client
+	mu    sync.Mutex
+	conns []*grpc.ClientConn
+}
+
+func newAtomixClient() *atomixClient { return &atomixClient{inner: test.NewClient()} }
+
+// Connect implements primitive.Client.
+func (c *atomixClient) Connect(ctx context.Context) (*grpc.ClientConn, error) {
+	conn, err := c.inner.Connect(ctx)
+	if err == nil {
+		c.mu.Lock()
+		c.conns = append(c.conns, conn)
+		c.mu.Unlock()
+	}
+	return conn, err
+}
+
+// Close closes every connection handed out and stops the in-memory cluster.
+func (c *atomixClient) Close() {
+	c.mu.Lock()
+	conns := c.conns
+	c.conns = nil
+	c.mu.Unlock()
+	for _, conn := range conns {
+		_ = conn.Close()
+	}
+	c.inner.Close()
+}
 
 // watcher is one subscription held by a logical client: the context handed to
 // the store's Watch, the consumer goroutine reading the channel, and the
@@ -35,8 +77,11 @@ type watcher struct {
 	abandoned     bool // cancelled while not reading and nobody drains the channel
 	notCancelable bool // cancel suppressed (listed v3 double close)
 	mustSee       map[int]bool
-	pending       int // in-scope writes issued since the watcher was last confirmed up to date
-	checked       int // events already verified for per-key order
+	confirmed     map[int]bool // records for which a live event has been received
+	replayKeys    []int        // records that existed (in scope) when a replaying watcher subscribed
+	midReplay     bool         // cancelled before the end of the replay phase was observable
+	pending       int          // in-scope writes issued since the watcher was last confirmed up to date
+	checked       int          // events already verified for per-key order
 	quitOnce      sync.Once
 }
 
@@ -44,7 +89,7 @@ func newWatcher(id, client, key int, replay bool) *watcher {
 	ctx, cancel := context.WithCancel(context.Background())
 	return &watcher{id: id, client: client, key: key, replay: replay, ctx: ctx, cancel: cancel,
 		pauseReq: make(chan chan struct{}), resumeCh: make(chan struct{}), quit: make(chan struct{}), done: make(chan struct{}),
-		mustSee: map[int]bool{}}
+		mustSee: map[int]bool{}, confirmed: map[int]bool{}}
 }
 
 func (w *watcher) inScope(key int) bool { return w.key < 0 || w.key == key }
@@ -183,12 +228,36 @@ func dumpGoroutines() []gInfo {
 
 const storePkgMarker = "onos-config/pkg/store/"
 
+// Goroutine ids grow monotonically. Store goroutines that an earlier case of
+// this process left behind (a failing case, the demonstration of a listed
+// finding, stores that cannot be closed) belong to stores that no longer exist
+// and must not be read as a symptom of the current case: every case notes the
+// id of a goroutine started at its beginning and only looks at younger ones.
+var caseBaseline atomic.Int64
+
+func markCaseStart() {
+	ch := make(chan int64, 1)
+	go func() {
+		buf := make([]byte, 64)
+		n := runtime.Stack(buf, false)
+		var id int64
+		fmt.Sscanf(string(buf[:n]), "goroutine %d ", &id)
+		ch <- id
+	}()
+	caseBaseline.Store(<-ch)
+}
+
+func currentCase(g gInfo) bool {
+	id, err := strconv.ParseInt(g.id, 10, 64)
+	return err == nil && id > caseBaseline.Load()
+}
+
 // parkedInStore returns the goroutines of the store packages that sit in a
 // channel send (the pump's or a per-watch goroutine's `ch <- event`).
 func parkedInStore(gs []gInfo) map[string]gInfo {
 	out := map[string]gInfo{}
 	for _, g := range gs {
-		if strings.HasPrefix(g.state, "chan send") && strings.Contains(g.stack, storePkgMarker) {
+		if strings.HasPrefix(g.state, "chan send") && strings.Contains(g.stack, storePkgMarker) && currentCase(g) {
 			out[g.id] = g
 		}
 	}
@@ -218,10 +287,25 @@ func stablyParked() []gInfo {
 func frames(gs []gInfo) string {
 	var b strings.Builder
 	for _, g := range gs {
-		b.WriteString("goroutine " + g.id + " [" + g.state + "]")
-		for _, line := range strings.Split(g.stack, "\n") {
-			if strings.Contains(line, storePkgMarker) && strings.HasPrefix(line, "\t") {
-				b.WriteString(" " + strings.TrimSpace(line))
+		b.WriteString("goroutine " + g.id + " [" + g.state + "]:")
+		lines := strings.Split(g.stack, "\n")
+		for i, line := range lines {
+			if strings.Contains(line, storePkgMarker) && !strings.HasPrefix(line, "\t") && !strings.HasPrefix(line, "created by") {
+				fn := line
+				if k := strings.LastIndex(fn, "/"); k >= 0 {
+					fn = fn[k+1:]
+				}
+				if k := strings.Index(fn, "("); k > 0 && strings.HasSuffix(fn, ")") && !strings.Contains(fn[k:], "*") {
+					fn = fn[:k]
+				}
+				loc := ""
+				if i+1 < len(lines) {
+					loc = strings.TrimSpace(lines[i+1])
+					if k := strings.Index(loc, " +0x"); k > 0 {
+						loc = loc[:k]
+					}
+				}
+				b.WriteString(" " + fn + " at " + loc + ";")
 			}
 		}
 		b.WriteString("\n")
@@ -256,4 +340,40 @@ func pumpsOf(gs []gInfo) []gInfo {
 		}
 	}
 	return out
+}
+
+// storeGoroutines lists the goroutines of the store packages started by the current case, for reports.
+func storeGoroutines() string {
+	var gs []gInfo
+	for _, g := range dumpGoroutines() {
+		if strings.Contains(g.stack, storePkgMarker) && currentCase(g) {
+			gs = append(gs, g)
+		}
+	}
+	return frames(gs)
+}
+
+// replayDone tells whether the watcher's goroutine has demonstrably left the
+// replay phase: no replay asked, a live event received, or every record that
+// existed at subscription has been shown (an empty replay is unobservable).
+func (w *watcher) replayDone() bool {
+	if !w.replay {
+		return true
+	}
+	seen := map[int]bool{}
+	for _, e := range w.snapshot() {
+		if !e.Replayed {
+			return true
+		}
+		seen[e.Key] = true
+	}
+	if len(w.replayKeys) == 0 {
+		return false
+	}
+	for _, k := range w.replayKeys {
+		if !seen[k] {
+			return false
+		}
+	}
+	return true
 }
